@@ -14,7 +14,10 @@ MANIFEST = dict(
          "name incl. synthetic events in walk order, and a directory of the tree renamed over an empty directory of the tree "
          "(C03_contract_rename_dir_replacing, under the synchronisation invariant RSync of C02: moved + parents modified + "
          "synthetic moved + DirModified of the replaced directory from its IN_ATTRIB; _unwatched: the replaced directory has no "
-         "watch of its own) (C03_contract_*), tied to the pipeline "
+         "watch of its own); in a well-formed world os.walk under the new name of a renamed directory finds what it found under "
+         "the old one (C03_rename_dir_content: the fuel of the content function suffices, removing the replaced directory "
+         "touches nothing below the source, frename is a map), so the directory-rename contracts carry no tree hypothesis "
+         "(C03_contract_rename_dir_wf, _replacing, _replacing_unwatched) (C03_contract_*), tied to the pipeline "
          "LTS (C03_pipeline_tie); SHAPE laws of "
          "emit for every item (C03_flavour, C03_synthetic_only_descendants via C14, C03_moved_pair_paths/_cookie, "
          "C03_parent_modified); the unrestricted history-level soundness is REFUTED on the model for the code before the repairs "
